@@ -183,7 +183,7 @@ def is_separable(state: np.ndarray, dim: None | int | list[int] = None, level: i
             return True
 
         # Determined to be separable by using Lemma 1 of (Johnston_2013_Spectrum).
-        if np.linalg.norm(B) ** 2 <= np.min(np.real(np.linalg.eig(A))) * np.min(np.real(np.linalg.eig(C))) + tol**2:
+        if np.linalg.norm(B) ** 2 <= np.min(np.real(np.linalg.eigvals(A))) * np.min(np.real(np.linalg.eigvals(C))) + tol**2:
             return True
 
     # There are conditions that are both necessary and sufficient when both
